@@ -35,11 +35,11 @@ Section Draws.
   Qed.
 
   (** a random composition consumes exactly one draw *)
-  Theorem random_composition_draws tape sph (q : @query F) mn mx o comps mins maxs c old t i :
+  Theorem random_composition_draws tape sph (q : @query F) wt mn mx o comps mins maxs c old t i :
     in_range (ds_min mn) (ds_max mx) (q_depth q) = true ->
     in_range (dsl sph q mn) (dsl sph q mx) (q_depth q) = true ->
     find_idx comps c 0 = Some i ->
-    snd (comp_eval tape sph q (CRandom mn mx o comps mins maxs) c (old, t)) = S t.
+    snd (comp_eval tape sph q wt (CRandom mn mx o comps mins maxs) c (old, t)) = S t.
   Proof. intros H1 H2 H3. cbn [comp_eval]. now rewrite H1, H2, H3. Qed.
 End Draws.
 
